@@ -29,9 +29,9 @@ ASSUMPTIONS = [
 
 KEYS = [("a", False), ("b", False), ("c", False), ("a", False), ("b", False), ("1", False), ("1.0", False), ("0x1", False),
         ("true", False), ("1", True), ("~", False), ("null", False), ("x y", False), ("2001-01-01", False), ("d", False),
-        ("<<", True), ("0o1", False), ("01", False), ("60", False), ("yes", False), ("True", False),
-        # scalar nodes whose tag makes them build an unhashable value (or fail): ill-shaped keys
-        ("!!seq x", False), ("!!map x", False), ("!!set x", False), ("!!omap x", False), ("!!str k", False), ("!!int 1", False)]
+        ("<<", True), ("0o1", False), ("01", False), ("60", False), ("yes", False), ("True", False), ("!!str k", False), ("!!int 1", False)]
+# scalar nodes whose tag makes them build an unhashable value (or fail): ill-shaped keys, drawn rarely
+ILL_KEYS = [("!!seq x", False), ("!!map x", False), ("!!set x", False), ("!!omap x", False)]
 VALUES = [("1", False), ("2", False), ("x", False), ("y", False), ("z", False), ("", True), ("~", False), ("true", False),
           ("3.5", False), ("own", False), ("merged", False), ("first", False), ("second", False), ("2001-01-01", False)]
 
@@ -147,9 +147,14 @@ def dict_equal(ref, got, ordered_ids, path="$"):
             return "%s: expected dict, got %s" % (path, type(got).__name__)
         if len(ref) != len(got):
             return "%s: %d keys expected, %d loaded: %.80r vs %.80r" % (path, len(ref), len(got), list(ref), list(got))
+        lenient = next((x[1] for x in ordered_ids if isinstance(x, tuple) and x[0] == "lenient"), frozenset())
         for k in ref:
             if k not in got:
                 return "%s: key %r missing from %.80r" % (path, k, list(got))
+            if id(ref) not in lenient:
+                gk = next(x for x in got if x == k)
+                if type(gk) is not type(k):
+                    return "%s: key-type: key %r (%s) expected, the loaded mapping has %r (%s)" % (path, k, type(k).__name__, gk, type(gk).__name__)
             d = dict_equal(ref[k], got[k], ordered_ids, "%s[%r]" % (path, k))
             if d:
                 return d
@@ -248,7 +253,7 @@ def eval_doc(case):
 
 
 def docs():
-    key = st.sampled_from(KEYS).map(lambda t: ("s", t[0], t[1]))
+    key = st.sampled_from(KEYS * 10 + ILL_KEYS).map(lambda t: ("s", t[0], t[1]))
     val = st.sampled_from(VALUES).map(lambda t: ("s", t[0], t[1]))
     alias = st.integers(0, 30).map(lambda n: ("a", n))
     leaf = st.one_of(val, val, val, alias)
@@ -278,8 +283,19 @@ def docs():
             st.tuples(st.just("ml"), st.lists(st.one_of(alias, simple_map), min_size=1, max_size=3)),
             st.tuples(st.just("o"), st.sampled_from(["omap", "pairs"]), anc, st.lists(entry, max_size=3)))
     body = st.recursive(leaf, extend, max_leaves=14)
+    # a well-shaped family by construction: anchored sources with overlapping keys, an anchored list of them, and users that
+    # merge a source, an inline list, or the shared list - several times
+    src = st.tuples(st.just("m"), st.just(True), st.none(), st.lists(st.tuples(st.just("kv"), key, val), min_size=1, max_size=3))
+    alias_ = st.integers(0, 30).map(lambda n: ("a", n))
+    user_pair = st.one_of(st.tuples(st.just("kv"), key, val), st.tuples(st.just("kv"), key, val),
+                          st.tuples(st.just("mg"), alias_),
+                          st.tuples(st.just("mg"), st.tuples(st.just("q"), st.just(False), st.lists(st.one_of(alias_, alias_, src), min_size=2, max_size=3))))
+    user = st.tuples(st.just("m"), st.sampled_from([False, True]), st.sampled_from([None, None, "set"]), st.lists(user_pair, min_size=1, max_size=4))
+    family = st.tuples(st.lists(src, min_size=2, max_size=3), st.tuples(st.just("ml"), st.lists(alias_, min_size=2, max_size=3)),
+                       st.lists(user, min_size=1, max_size=4)).map(lambda t: ("q", False, t[0] + [t[1]] + t[2]))
     # a root sequence: definitions first, uses later, so that aliases find completed anchors
-    return st.lists(body, min_size=1, max_size=6).map(lambda items: ("q", False, items))
+    return st.one_of(st.lists(body, min_size=1, max_size=6).map(lambda items: ("q", False, items)),
+                     st.lists(body, min_size=1, max_size=6).map(lambda items: ("q", False, items)), family)
 
 
 def eval_wrap(case):
@@ -291,6 +307,7 @@ def arms(tier):
     return [Arm("docs", eval_wrap, docs, quick=12000, thorough=400000)]
 
 
+MIN_CLASS_COUNTS = {"well-shaped:with-merge": 600, "well-shaped:with-merge-list>=2": 200, "ill-shaped:unhashable key": 100}
 REQUIRED_CLASSES = ["merge", "merge:list>=2", "merge:alias", "merge:several-keys", "alias-to:map", "alias-to:maplist", "set",
                     "omap", "pairs", "quoted-merge-key", "complex-key", "well-shaped:with-merge", "well-shaped:with-merge-list>=2", "dup-key"]
 
